@@ -221,7 +221,10 @@ impl<T: ContentType> State<T> {
                         header.properties,
                     )))
                 } else {
-                    let buf = Vec::with_capacity(header.body_size as usize);
+                    // body_size comes straight from the server; do not size an allocation
+                    // from it (a bogus value would panic with "capacity overflow" or abort
+                    // on allocation failure). The buffer grows as body frames arrive.
+                    let buf = Vec::new();
                     Ok(Content::NeedMore(State::Body(start, header, buf)))
                 }
             }
